@@ -140,6 +140,16 @@ func (a ArgumentConditions) Validate() []string {
 		if condition.Argument < 0 || condition.Argument > 5 {
 			problems = append(problems, fmt.Sprintf("argument must be between 0 and 5 (inclusive), but is %v", condition.Argument))
 		}
+		known := false
+		for _, operation := range Operations {
+			if condition.Operation == operation {
+				known = true
+				break
+			}
+		}
+		if !known {
+			problems = append(problems, fmt.Sprintf("invalid operation: %v", condition.Operation))
+		}
 	}
 	return problems
 }
